@@ -626,8 +626,15 @@ func (b *BaseStore) Sync(ctx context.Context, heads []ipfslog.Entry) error {
 	verifiedHeads := make([]ipfslog.Entry, 0, len(heads))
 
 	for _, h := range heads {
-		if h == nil {
+		if h == nil || !h.Defined() {
 			b.Logger().Debug("warning: Given input entry was 'null'.")
+			continue
+		}
+
+		// heads come from the network: an entry lacking the fields the
+		// access controller and the replicator rely on is discarded
+		if h.GetIdentity() == nil || h.GetClock() == nil || !h.GetClock().Defined() || !h.GetHash().Defined() {
+			b.Logger().Debug("warning: Given input entry is incomplete and was discarded.")
 			continue
 		}
 
